@@ -641,7 +641,7 @@ func checkApplyWritesFilterResult(w *World, r *Report) {
 		var applies []*ssa.Call
 		instrsOf(fn, func(in ssa.Instruction) {
 			if c, ok := in.(*ssa.Call); ok && calleeFunc(c) == applyFilter {
-				if _, f := originField(callArgs(c)[0], 0); f == "filter" {
+				if t, f := originField(callArgs(c)[0], 0); f == "filter" && t == nt.Obj().Name() {
 					applies = append(applies, c)
 				}
 			}
